@@ -338,21 +338,29 @@ func TestVerifC17(t *testing.T) {
 	defer out.Close()
 	n := 70
 	if verifh.Thorough() {
-		n = 1500
+		n = 1200
 	}
 	race := os.Getenv("VERIF_C17_RACE") != ""
 	if race {
-		n = 150
+		n = 500
 	}
 	only := os.Getenv("VERIF_ONLY")
 	rejected := 0
 	for i := 0; i < n; i++ {
 		prefix := fmt.Sprintf("c17-%d-", i)
+		if race {
+			prefix = fmt.Sprintf("c17r-%d-", i)
+		}
 		if only != "" && !strings.HasPrefix(only, prefix) {
 			continue
 		}
 		r := verifh.NewRand(verifh.Seed(), fmt.Sprintf("C17/%d", i))
 		g := c17Config(r)
+		if race && (g.kinds["prefix-wildcard"] || g.kinds["route-wildcard"] || g.kinds["rdnss-wildcard"]) {
+			// the race run uses the real Prepare methods (real synchronisation); wildcard stanzas would then read
+			// rtnetlink, so they are left to the model-checked run above
+			continue
+		}
 		// parsed outside the bubble (the debug address is resolved); the bubble's clock starts at vEpoch
 		cfg, err := config.Parse(strings.NewReader(g.toml), vEpoch)
 		if err != nil {
@@ -388,7 +396,9 @@ func c17Run(t *testing.T, out *verifh.Out, r *verifh.Rand, g c17Gen, cfg *config
 		st.fwd[ifi.Name] = r.Chance(60)
 		st.auto[ifi.Name] = r.Bool()
 	}
-	wrapPlugins(cfg, e.src)
+	if !race {
+		wrapPlugins(cfg, e.src)
+	}
 	e.w = newMWiring(cfg, st)
 
 	// Server.BuildTasks: the advertisers get the same plugin values; only the dial is faked.
@@ -429,7 +439,9 @@ func c17Run(t *testing.T, out *verifh.Out, r *verifh.Rand, g c17Gen, cfg *config
 	ctx, cancel := context.WithCancel(context.Background())
 	var runs []running
 	for _, a := range advs {
+		mu.Lock()
 		failing[a.cfg.Name] = 3
+		mu.Unlock()
 		done := make(chan error, 1)
 		runs = append(runs, running{a.cfg.Name, done})
 		go func() { done <- a.Run(ctx) }()
@@ -563,24 +575,24 @@ func (e *c17Env) observe(point string, r *verifh.Rand, inject, routes bool) {
 			ifi := cfg.Interfaces[r.Intn(len(cfg.Interfaces))]
 			switch r.Intn(4) {
 			case 0:
-				st.failFwd[ifi.Name] = true
+				st.setFail(ifi.Name, true, false)
 				injected = append(injected, "fwd:"+ifi.Name)
 			case 1:
-				st.failAuto[ifi.Name] = true
+				st.setFail(ifi.Name, false, true)
 				injected = append(injected, "auto:"+ifi.Name)
 			case 2:
-				e.src[ifi.Name].failAddrs = true
+				e.src[ifi.Name].setFail(true, false)
 				injected = append(injected, "addrs:"+ifi.Name)
 			case 3:
-				e.src[ifi.Name].failRoute = true
+				e.src[ifi.Name].setFail(false, true)
 				injected = append(injected, "routes:"+ifi.Name)
 			}
 		}
 	}
 	defer func() {
+		st.clearFails()
 		for _, ifi := range cfg.Interfaces {
-			st.failFwd[ifi.Name], st.failAuto[ifi.Name] = false, false
-			e.src[ifi.Name].failAddrs, e.src[ifi.Name].failRoute = false, false
+			e.src[ifi.Name].setFail(false, false)
 		}
 	}()
 
@@ -606,14 +618,15 @@ func (e *c17Env) observe(point string, r *verifh.Rand, inject, routes bool) {
 				options += len(ra.Options)
 			case !e.prepared[ifi.Name] && needsSource(ifi):
 				build = "(Err 1%N)"
-			case e.src[ifi.Name].failAddrs || e.src[ifi.Name].failRoute:
+			case e.src[ifi.Name].failing():
 				build = "(Err 2%N)"
 			default:
 				build = "(Err 3%N)"
 			}
 		}
+		fwd, auto, failFwd, failAuto := st.get(ifi.Name)
 		ifins = append(ifins, verifh.App("mkIf", e.in.N("if:"+ifi.Name), verifh.B(ifi.Advertise), verifh.B(ifi.Monitor),
-			optB(st.failAuto[ifi.Name], st.auto[ifi.Name]), optB(st.failFwd[ifi.Name], st.fwd[ifi.Name]), build))
+			optB(failAuto, auto), optB(failFwd, fwd), build))
 	}
 	ifs := verifh.List(ifins)
 	tags := []string{"point:" + point}
@@ -624,7 +637,7 @@ func (e *c17Env) observe(point string, r *verifh.Rand, inject, routes bool) {
 		tags = append(tags, "failures-injected")
 	}
 	input := map[string]any{"toml": e.g.toml, "point": point, "injected": injected, "options": options,
-		"advertising": advertising, "virtual_ns": vNow(), "forwarding": fmt.Sprint(st.fwd)}
+		"advertising": advertising, "virtual_ns": vNow()}
 
 	// ---- scrape: Memory first (a panic there is recoverable; inside Gather it would kill the process)
 	series, panicked := e.w.memorySeries()
